@@ -552,30 +552,31 @@ func azValidatorReload(c *suiteCtx) {
 			probe()
 		}
 		if file != "" && i%4 == 1 && len(set) > 0 {
-			// the operator removes EVERY entry (empty / comment-only file): nobody from the file stays authorised
-			for len(w.updates) > 0 {
-				<-w.updates
-			}
+			// the operator removes EVERY entry (empty / comment-only file): nobody from the file stays authorised.
+			// Driven SYNCHRONOUSLY through the real loader (no file watcher: its events are asynchronous and may still
+			// belong to an earlier rewrite), on a copy of the file.
 			prev := set
 			content := "# nobody\n"
 			if i%8 == 1 {
 				content = ""
 			}
-			tmp := file + ".tmp"
-			os.WriteFile(tmp, []byte(content), 0o600)
-			os.Rename(tmp, file)
-			select {
-			case <-w.updates:
-			case <-time.After(3 * time.Second):
-				c.violation("HARNESS", "reload of the emptied authenticated-emails file not observed", map[string]interface{}{"file": file})
+			f2 := file + ".sync"
+			writeEmailsFile(nil, f2, prev, "sentinel-sync@probe.test")
+			um := NewUserMap("", nil, func() {})
+			um.usersFile = f2
+			um.LoadAuthenticatedEmailsFile()
+			loaded := um.IsValid("sentinel-sync@probe.test")
+			os.WriteFile(f2, []byte(content), 0o600)
+			um.LoadAuthenticatedEmailsFile()
+			if !loaded {
+				c.violation("HARNESS", "synchronous load of the authenticated-emails file did not take effect", map[string]interface{}{"file": f2})
 			}
-			set = nil
-			for _, e := range prev {
-				got := w.validate(e)
-				c.emit(bs(got), "va", hxl(ds), hxl(set), hx(e))
+			for _, e := range append(append([]string{}, prev...), "sentinel-sync@probe.test") {
+				got := um.IsValid(e)
+				c.emit(bs(got), "va", "-", "-", hx(e))
 				c.count("va:emptied-file")
-				if allowed, sane := azEmailAllowed(e, ds, nil); sane && got && !allowed {
-					c.violation("C08", "an e-mail removed from the authenticated-emails file (file emptied) is still accepted after the reload", map[string]interface{}{"email": e, "email_domains": ds, "file_content": content})
+				if got {
+					c.violation("C08", "an e-mail removed from the authenticated-emails file (file emptied) is still accepted after the reload", map[string]interface{}{"email": e, "file_content": content})
 				}
 			}
 		}
